@@ -10,6 +10,7 @@ import Scale.Entry
 import Scale.Mel
 import Scale.Append
 import Scale.EntryEnc
+import Scale.Like
 namespace Scale.Driver
 open Scale
 
@@ -392,6 +393,13 @@ def answer (line : String) : String :=
     match parseHex hv, m.toNat?, parseHex hp with
     | some v, some m, some p => showResBytes (Impl.appendOrNewN v m p)
     | _, _, _ => "bad-op"
+  | "like" :: rest =>
+    match parseTy rest with
+    | some (a, r) =>
+      match parseTy r with
+      | some (b, []) => if encodesLike a b then "yes" else "no"
+      | _ => "bad-op"
+    | none => "bad-op"
   | "mel" :: rest =>
     match parseTy rest with
     | some (ty, []) => if Impl.hasMel ty then toString (Impl.mel ty) else "none"
